@@ -38,6 +38,11 @@ def gen_acl(rnd, d=0):
         elif d < 2 and x < 50:
             ch = [RA.acl_rule(["~"], glob=True)]
         rules.append(RA.acl_rule(toks, ch, cd=rnd.choice([None, None, 0, 1])))
+        if d < 2 and rnd.chance(20):
+            # a second, partially overlapping local rule for the same head with its own children (union of children applies)
+            rules.append(RA.acl_rule([h, rnd.choice(["lx", "a", "*", "*/[a-z]+/", "*/[0-9]+/", "*/[a-z]+/"])] + (["~"] if rnd.chance(30) else []),
+                                     gen_acl(rnd, d + 1) if rnd.chance(70) else [],
+                                     cd=rnd.choice([None, 0, 1])))
     if d > 0 and rnd.chance(15):
         rules.append(RA.acl_rule(["glit"], glob=True))
     if d == 0 and rnd.chance(4):
